@@ -762,7 +762,7 @@ func (ctx Ctx) callExpr(s *ast.CallExpr) coq.Expr {
 	if ctx.isBuiltinIdent(s.Fun, "uint32") {
 		return ctx.integerConversion(s, s.Args[0], 32)
 	}
-	if ctx.isBuiltinIdent(s.Fun, "uint8") {
+	if ctx.isBuiltinIdent(s.Fun, "uint8") || ctx.isBuiltinIdent(s.Fun, "byte") {
 		return ctx.integerConversion(s, s.Args[0], 8)
 	}
 	if ctx.isBuiltinIdent(s.Fun, "panic") {
